@@ -5,12 +5,16 @@ import lib_doc as L
 from framework import Result
 
 ID = 'C02'
-LEAN_TARGETS = ['TexSoupProofs.Properties.C12', 'TexSoupProofs.Properties.C09', 'TexSoupProofs.Properties.C08']
-THEOREMS = ['TexSoup.C12.math_region', 'TexSoup.C09.group_closes_only_on_own_delimiter',
-            'TexSoup.C09.bracket_needs_no_partner', 'TexSoup.C08.conservation']
-PARTIAL = ['full completeness of the reader on the grammar (every construct, any nesting) is being proved separately; '
-           'until it is integrated the tree-shape clause is decided by the three-way comparison AST / implementation / '
-           'model in this check']
+LEAN_TARGETS = ['TexSoupProofs.Properties.C02', 'TexSoupProofs.Properties.C02Strings']
+THEOREMS = ['TexSoup.C02.' + n for n in (
+    'tree_mirrors_document', 'parse_complete', 'construct_read_back', 'zero_arg_operator_absorbs_nothing',
+    'special_command_reads_args_in_special_mode', 'special_mode_is_inherited', 'begin_end_in_special_are_commands',
+    'item_owns_up_to_stop', 'document_parses', 'document_parses_both', 'document_roundtrip')]
+PARTIAL = ['the Lean grammar (TexSoupModel/Grammar.lean) and the Python document generator (gen_doc.py) are two '
+           'descriptions of "documented constructs": that the generator only emits documents of the proved grammar is '
+           'not itself proved; the three-way comparison AST / implementation / model in this check ties them',
+           'restrictions of the proved grammar: environment names are single text tokens; fixed-signature commands '
+           'take no continuation arguments']
 TRUSTED = ['harness/gen_doc.py (grammar of documented constructs, expected tree of a generated document, frame '
            'conditions, normal form of canonical trees: adjacent text leaves merged, positions dropped)',
            'correspondence harness (props/c02.py, lib_doc.py, common.py)']
